@@ -156,6 +156,9 @@ type Variable struct {
 	Used   bool
 	Origin VariableOriginKind
 	IsPub  bool
+	// Set for a function that is imported from another Homescript module: unlike every other
+	// variable, this one names a function of the program (which can be used in a `spawn`)
+	IsImportedFunction bool
 }
 
 func NewVar(typ ast.Type, span errors.Span, origin VariableOriginKind, isPub bool) Variable {
